@@ -448,6 +448,27 @@ theorem C20_otherwise_catches_everything (rx : String → String → Bool) (ps :
   have := (C20_match_panic_iff rx ps v h).mp hp _ ho
   simp [Spec.accepts] at this
 
+/-- The pinned code (before 33c3a0d) violated first-match: `InCaseOfEqual(p)` never matched the pointer `p`
+    itself because `MatchFor` dereferenced every pointer to a struct. -/
+theorem C20_pinned_deref_refuted (rx : String → String → Bool) :
+    ∃ ps v, (∀ p ∈ ps, p.pat.inScope = true) ∧ matchForPinned rx ps v ≠ Spec.matchFor rx ps v :=
+  by
+  refine ⟨[⟨.equal (.atom (.ptr 0 1)), 0⟩, ⟨.otherwise, 1⟩], .atom (.ptr 0 1), by decide, ?_⟩
+  have h1 : matchForPinned rx [⟨.equal (.atom (.ptr 0 1)), 0⟩, ⟨.otherwise, 1⟩] (.atom (.ptr 0 1))
+      = .ok (1, .atom (.strct 0 0)) := by rfl
+  have h2 : Spec.matchFor rx [⟨.equal (.atom (.ptr 0 1)), 0⟩, ⟨.otherwise, 1⟩] (.atom (.ptr 0 1))
+      = .ok (0, .atom (.ptr 0 1)) := by rfl
+  rw [h1, h2]; decide
+
+/-- The pinned code (before c5a1b66) panicked on a defined string type although `Otherwise` follows. -/
+theorem C20_pinned_regex_refuted (rx : String → String → Bool) :
+    matchForPinned rx [⟨.regex "lit:abc", 0⟩, ⟨.otherwise, 1⟩] (.atom (.str true "abc")) = .panic ∧
+    Spec.matchFor rx [⟨.regex "lit:abc", 0⟩, ⟨.otherwise, 1⟩] (.atom (.str true "abc")) ≠ .panic := by
+  constructor
+  · rfl
+  · simp only [Spec.matchFor, List.find?_cons, Spec.accepts, Spec.view, GoVal.text]
+    cases rx "lit:abc" "abc" <;> simp
+
 /-- `Either(v, ps...)` is `MatchFor` -/
 theorem C20_either (rx : String → String → Bool) (ps : List Pattern) (v : GoVal) :
     either rx v ps = matchFor rx ps v := rfl
